@@ -111,7 +111,7 @@ fn n_cases(a: &Args, quick: u64, thorough: u64) -> u64 {
 
 // ------------------------------------------------------------------------------ C01
 pub fn c01_dhuhr(a: &Args) -> Report {
-    let n = n_cases(a, 60_000, 1_000_000);
+    let n = n_cases(a, 200000, 1_000_000);
     let mut rep = Report::new("c01_dhuhr", &format!("{} seeded cases: lat [-90,90], lon [-180,180], gmt within 6 h of lon/15, dates 1600..2399 (1/8 in the March-equinox week, leap days, year ends), 9 methods; plus EVERY 18-24 March of 1600..2399 at 3 sites", n));
     let mut rng = Rng::new(a.seed ^ 0xC01);
     let mut check = |rep: &mut Report, c: &Case, m: Method| {
@@ -157,7 +157,7 @@ pub fn c01_dhuhr(a: &Args) -> Report {
 
 // ------------------------------------------------------------------------------ C02
 pub fn c02_sunrise(a: &Args) -> Report {
-    let n = n_cases(a, 40_000, 600_000);
+    let n = n_cases(a, 150000, 600_000);
     let mut rep = Report::new("c02_sunrise", &format!("{} seeded cases |lat|<=60, all lon, gmt within 2 h of lon/15, dates 1600..2399, 9 methods; 1/4 with weather over the full valid range", n));
     let mut rng = Rng::new(a.seed ^ 0xC02);
     for k in 0..n {
@@ -222,7 +222,7 @@ fn dec_of_date(c: &Case) -> f64 {
 }
 
 pub fn c03_twilight(a: &Args) -> Report {
-    let n = n_cases(a, 40_000, 600_000);
+    let n = n_cases(a, 150000, 600_000);
     let mut rep = Report::new("c03_twilight", &format!("{} seeded cases |lat|<=60, dates 1600..2399, 6 angle methods + custom Fajr/Isha angles in [9,21], Imsaak angles in [0.5,3]", n));
     let mut rng = Rng::new(a.seed ^ 0xC03);
     for k in 0..n {
@@ -290,7 +290,7 @@ pub fn c03_twilight(a: &Args) -> Report {
 }
 
 pub fn c04_asr(a: &Args) -> Report {
-    let n = n_cases(a, 40_000, 600_000);
+    let n = n_cases(a, 150000, 600_000);
     let mut rep = Report::new("c04_asr", &format!("{} seeded cases |lat|<=60, dates 1600..2399, both schools, 1/10 at lat = declination (zenith passage)", n));
     let mut rng = Rng::new(a.seed ^ 0xC04);
     for k in 0..n {
@@ -347,7 +347,7 @@ pub fn c04_asr(a: &Args) -> Report {
 }
 
 pub fn c05_order(a: &Args) -> Report {
-    let n = n_cases(a, 40_000, 600_000);
+    let n = n_cases(a, 150000, 600_000);
     let mut rep = Report::new("c05_order", &format!("{} seeded cases |lat|<=60, dates 1600..2399, 8 named methods + custom angles in [9,21], 4 rounding modes, policy None", n));
     let mut rng = Rng::new(a.seed ^ 0xC05);
     let modes = [RoundSeconds::None, RoundSeconds::NormalRounding, RoundSeconds::SpecialRounding, RoundSeconds::AggressiveRounding];
@@ -415,7 +415,7 @@ pub fn c05_order(a: &Args) -> Report {
 
 // ------------------------------------------------------------------------------ C06
 pub fn c06_validity(a: &Args) -> Report {
-    let n = n_cases(a, 60_000, 800_000);
+    let n = n_cases(a, 200000, 800_000);
     let mut rep = Report::new("c06_validity", &format!("{} seeded cases lat up to +-89.5 (1/2 with |lat|>=48), dates 1600..2399 (1/4 near solstices), angle methods, policy None; 0.05 deg exemption band", n));
     let mut rng = Rng::new(a.seed ^ 0xC06);
     for k in 0..n {
@@ -473,7 +473,7 @@ pub fn c06_validity(a: &Args) -> Report {
 
 // ------------------------------------------------------------------------------ C13
 pub fn c13_smooth(a: &Args) -> Report {
-    let n = n_cases(a, 30_000, 400_000);
+    let n = n_cases(a, 100000, 400_000);
     let mut rep = Report::new("c13_smooth", &format!("{} seeded date triples (1/8 around the March equinox, month/year ends, leap days) |lat|<=45 (Fajr/Isha 40; Asr 25..45), angle methods; plus EVERY consecutive triple of 4 sampled years at 2 sites", n));
     let mut rng = Rng::new(a.seed ^ 0xC13);
     let mut triple = |rep: &mut Report, c: &Case, m: Method| {
@@ -535,7 +535,7 @@ pub fn c13_smooth(a: &Args) -> Report {
 
 // ------------------------------------------------------------------------------ C20
 pub fn c20_zones(a: &Args) -> Report {
-    let n = n_cases(a, 30_000, 400_000);
+    let n = n_cases(a, 100000, 400_000);
     let mut rep = Report::new("c20_zones", &format!("{} seeded cases |lat|<=45, shifts d in {{-3..3}} h of the GMT offset and 15 deg east + 1 h, staying in range, all methods", n));
     let mut rng = Rng::new(a.seed ^ 0xC20);
     for k in 0..n {
@@ -693,7 +693,7 @@ fn nearest_good(p0: &Params, l: Location, d: NaiveDate) -> Option<NaiveDate> {
 }
 
 pub fn c09_neargood(a: &Args) -> Report {
-    let n = n_cases(a, 3_000, 40_000);
+    let n = n_cases(a, 6000, 40_000);
     let mut rep = Report::new("c09_neargood", &format!("{} seeded cases 48<=|lat|<=64 in both hemispheres, every season incl. January/December in the southern summer and leap years, dates 1600..2399, angle methods; both nearest-good-day policies", n));
     let mut rng = Rng::new(a.seed ^ 0xC09);
     for k in 0..n {
